@@ -2,14 +2,59 @@ package h
 
 import (
 	"fmt"
+	"os"
+	"strings"
+	"time"
+
+	"pgregory.net/rapid"
 )
 
 // C07 — the printed seed reproduces the failure; a fixed seed fixes the whole run.
 
 func init() { scenarios["C07"] = scenarioC07 }
 
+// scenarioC07MakeCheck: a MakeCheck closure created BEFORE the flags of this run are set (as a package-level table of
+// subtests would be) must still honour -rapid.seed: it generates exactly the test cases Check generates.
+func scenarioC07MakeCheck(rc *RunCtx) {
+	t := rc.T
+	var drawsMC, drawsCk []string
+	rec := func(dst *[]string) func(*rapid.T) {
+		return func(rt *rapid.T) {
+			a := rapid.IntRange(0, 1<<30).Draw(rt, "a")
+			b := rapid.SliceOfN(rapid.Uint8(), 0, 4).Draw(rt, "b")
+			*dst = append(*dst, fmt.Sprintf("%d %v", a, b))
+		}
+	}
+	mc := rapid.MakeCheck(rec(&drawsMC)) // created while the flags still hold whatever the previous run left there
+	fl := Flags{Checks: t.Int("c07.mc.checks", 1, 8), Steps: 3, Seed: 1 + t.Draw("c07.mc.seed", 1<<40), ShrinkTime: time.Second, NoFailFile: true}
+	fl.Apply()
+	old, _ := os.Getwd()
+	_ = os.Chdir(rc.FreshDir())
+	curT.Run("makecheck", mc)
+	tb := &simTB{w: NewWorld("mc", ClockPolicy{}, false), name: "makecheck"}
+	func() {
+		defer func() { recover() }()
+		rapid.Check(tb, rec(&drawsCk))
+	}()
+	_ = os.Chdir(old)
+	rc.Inc("leg.makecheck_created_before_flags")
+	rc.Inc("checks_run")
+	rc.Sample = fmt.Sprintf("MakeCheck leg: seed=%d checks=%d -> %d / %d cases", fl.Seed, fl.Checks, len(drawsMC), len(drawsCk))
+	rc.Tracef("%s", rc.Sample)
+	rc.Key = MixSeed(fl.Seed, uint64(fl.Checks))
+	rc.Nontriv = len(drawsMC) > 0
+	rc.MixHash(HashString(strings.Join(drawsMC, ";")))
+	if strings.Join(drawsMC, ";") != strings.Join(drawsCk, ";") {
+		rc.V(viol("C07.R1", "makecheck-ignores-seed", "with -rapid.seed=%d a MakeCheck closure created earlier generated {%s}, Check generates {%s}", fl.Seed, oneLine(strings.Join(drawsMC, "; "), 200), oneLine(strings.Join(drawsCk, "; "), 200)))
+	}
+}
+
 func scenarioC07(rc *RunCtx) {
 	t := rc.T
+	if t.Chance("c07.makecheck_leg", 6) {
+		scenarioC07MakeCheck(rc)
+		return
+	}
 	pf := failingProfile(t)
 	pf.Selector = t.Int("c07.selector", 1, 60)
 	pf.FailCondEasy = true
@@ -83,6 +128,28 @@ func scenarioC07(rc *RunCtx) {
 		rc.V(viol("C07.R2", "not-after-0", "with the printed seed: verdict=%s after %d tests, %d random cases (want a failure after 0 tests)", c.Verdict, c.AfterTests, len(gen)))
 	}
 	rc.Inc("probe.printed_seed_replayed")
+
+	// a failure replayed from the fail file: if its message offers a seed, that seed has to reproduce the failure too
+	if !fl.NoFailFile && len(newFailFiles(a)) == 1 {
+		f3 := fl
+		f3.NoFailFile = true
+		d := RunCheck(prog, RunOpt{Name: name, Dir: a.Dir, Flags: f3, Clock: ClockPolicy{Kind: ClkFrozen}, WithCtx: withCtx})
+		rc.Note(d)
+		if failedVerdict(d) && d.SeedPrinted != 0 && len(d.ByPhase("gen")) == 0 {
+			rc.Inc("probe.seed_printed_for_failfile_failure")
+			f4 := fl
+			f4.Seed = d.SeedPrinted
+			f4.NoFailFile = true
+			e := RunCheck(prog, RunOpt{Name: name, Dir: rc.FreshDir(), Flags: f4, Clock: ClockPolicy{Kind: ClkFrozen}, WithCtx: withCtx})
+			rc.Note(e)
+			if F := d.Final(); F != nil && !e.W.Overrun {
+				ge := e.ByPhase("gen")
+				if len(ge) == 0 || DrawLog(ge[0]) != DrawLog(O) || !failedVerdict(e) || e.AfterTests != 0 {
+					rc.V(viol("C07.R2", "failfile-report-seed", "the failure replayed from the fail file offers -rapid.seed=%d, which does not reproduce it (verdict %s after %d tests)", d.SeedPrinted, e.Verdict, e.AfterTests))
+				}
+			}
+		}
+	}
 }
 
 // diffRuns describes the first difference between two histories.
